@@ -185,7 +185,7 @@ package asn1
 //@ at big1 assert [lax-flag-handed-on] big1.lax == params.lax
 //@ at i32b assert [lax-flag-handed-on] i32b.lax == params.lax
 //@ at i64b assert [lax-flag-handed-on] i64b.lax == params.lax
-//@ loop 1 invariant 0 <= innerOffset
+//@ loop 2 invariant 0 <= innerOffset
 //@ at rec assert [struct-fields-inherit-the-lax-flag] rec.params.lax == params.lax
 //@ at seq assert [sequence-elements-inherit-the-lax-flag] seq.lax == params.lax
 //@ at ps2 assert [lax-flag-handed-on] ps2.lax == params.lax
